@@ -232,54 +232,72 @@ def modes_correlation(modes):
 
 
 def fock_sizes(modes, onorm, margin=0):
-    """Truncation so that thermal + displaced population beyond the cut is < ~1e-13 (checked by the caller
-    by repeating with a larger cut)."""
+    """Fock truncation per mode: thermal tail exp(-n w/T) and the Poisson tail of the largest coherent displacement
+    2 g |o|/w both below ~1e-13.  Only a starting point: the caller repeats the simulation with a larger cut and
+    requires agreement (see C01 finite-mode family)."""
     out = []
     for (w, g, t) in modes:
-        nb = 0.0 if t == 0 else 1.0 / math.expm1(w / t)
-        disp2 = (2.0 * g * onorm / w) ** 2
-        lam = nb + disp2 + 2 * math.sqrt(max(nb * disp2, 0.0))     # effective scale of the occupation tail
-        q = lam / (1.0 + lam)
-        n = int(math.ceil(math.log(1e-15) / math.log(max(q, 1e-3)))) + 3
-        out.append(max(5, n) + margin)
+        n_th = 0 if t == 0 else int(math.ceil(30.0 * t / w))
+        amp = 2.0 * g * onorm / w
+        n_d = int(math.ceil(amp * amp + 8.0 * amp + 6.0))
+        out.append(n_th + n_d + margin)
     return out
 
 
-def modes_simulation(h, gammas, lops, o, modes, rho0, dt, n_steps, margin=0, props=None):
+def modes_simulation(o, modes, rho0, dt, n_steps, props, margin=0):
     """Explicit density-matrix evolution of system (x) modes with the symmetric splitting
-       half system step, exp(-i dt (O (x) sum_k g_k (b_k + b_k^dag) + sum_k w_k b_k^dag b_k)), half system step;
-       modes start in their thermal states.  props(k) -> (P1, P2) overrides the constant half steps."""
-    d = h.shape[0] if h is not None else o.shape[0]
+       half system step P1(k),  exp(-i dt (O (x) sum_k g_k (b_k + b_k^dag) + sum_k w_k b_k^dag b_k)),  half system step P2(k);
+    modes start in their thermal states.  props(k) -> (P1, P2) system superoperators (row-major vec).
+    The joint unitary is applied as the product over modes of exp(-i dt (O (x) g_k x_k + w_k n_k)) (each a dense
+    matrix exponential on system (x) mode k); the factors commute exactly, so this *is* the joint exponential.
+    State tensor R[s, n_1..n_m, s', n_1'..n_m']."""
+    d = o.shape[0]
+    m = len(modes)
     sizes = fock_sizes(modes, float(np.abs(np.linalg.eigvalsh(o)).max()), margin)
-    e = int(np.prod(sizes))
-    hb = np.zeros((e, e), dtype=complex)
-    bx = np.zeros((e, e), dtype=complex)
-    sigma = np.ones((1, 1), dtype=complex)
-    for j, ((w, g, t), nf) in enumerate(zip(modes, sizes)):
+    us = []
+    rho = np.asarray(rho0, dtype=complex)
+    for (w, g, t), nf in zip(modes, sizes):
         a = np.diag(np.sqrt(np.arange(1, nf)), 1).astype(complex)
-        ops_n = [np.eye(m) for m in sizes]
-        ops_x = [np.eye(m) for m in sizes]
-        ops_n[j] = a.conj().T @ a
-        ops_x[j] = a + a.conj().T
-        kn = np.ones((1, 1))
-        kx = np.ones((1, 1))
-        for m1, m2 in zip(ops_n, ops_x):
-            kn = np.kron(kn, m1)
-            kx = np.kron(kx, m2)
-        hb = hb + w * kn
-        bx = bx + g * kx
-        p = np.ones(nf) if t > 0 else np.zeros(nf)
+        hk = np.kron(o, g * (a + a.conj().T)) + np.kron(np.eye(d), w * (a.conj().T @ a))
+        us.append(sl.expm(-1j * dt * hk).reshape(d, nf, d, nf))
         if t > 0:
             p = np.exp(-w * np.arange(nf) / t)
         else:
+            p = np.zeros(nf)
             p[0] = 1.0
-        sigma = np.kron(sigma, np.diag(p / p.sum()).astype(complex))
-    htot = np.kron(o, bx) + np.kron(np.eye(d), hb)
-    u = sl.expm(-1j * dt * htot)
-    if props is None:
-        p12 = R.half_props(h, dt, gammas, lops)
-        props = (lambda k: p12)
-    return R.simulate(rho0, [sigma], lambda j, k: [u], props, n_steps), sizes
+        rho = np.kron(rho, np.diag(p / p.sum()).astype(complex))
+    dims = [d] + list(sizes)
+    rho = rho.reshape(dims + dims)
+    nax = m + 1
+
+    def sys_apply(sup, r):
+        s4 = np.asarray(sup).reshape(d, d, d, d)                      # [s, s', t, t']
+        r = np.tensordot(s4, r, axes=([2, 3], [0, nax]))               # [s, s', n.., n'..]
+        return np.moveaxis(r, 1, nax)
+
+    def env_apply(k, r):
+        u4 = us[k]
+        r = np.tensordot(u4, r, axes=([2, 3], [0, 1 + k]))             # [s, n_k, (others)...]
+        r = np.moveaxis(r, 1, 1 + k)
+        r = np.tensordot(u4.conj(), r, axes=([2, 3], [nax, nax + 1 + k]))   # [s', n_k', (rest in order)]
+        r = np.moveaxis(r, [0, 1], [nax, nax + 1 + k])
+        return r
+
+    def reduced(r):
+        idx = list(range(2 * nax))
+        for j in range(1, nax):
+            idx[nax + j] = idx[j]
+        return np.einsum(r, idx, [0, nax])
+
+    states = [reduced(rho)]
+    for k in range(n_steps):
+        p1, p2 = props(k)
+        rho = sys_apply(p1, rho)
+        for j in range(m):
+            rho = env_apply(j, rho)
+        rho = sys_apply(p2, rho)
+        states.append(reduced(rho))
+    return states, sizes
 
 
 # ---------------------------------------------------------------------------------------------
@@ -313,3 +331,13 @@ def physicality(states):
     nh = max(np.abs(s - s.conj().T).max() for s in states)
     me = min(np.linalg.eigvalsh((s + s.conj().T) / 2).min() for s in states)
     return float(tr), float(nh), float(me)
+
+
+def ratio_class(x):
+    """Coarse, run-to-run stable label of deviation / tolerance (truncated tensor networks are reproducible only to a
+    few epsrel, so replay observations must not contain raw digits)."""
+    if x < 0.01:
+        return "<0.01"
+    if x <= 1.0:
+        return "<=1"
+    return f">1e{int(math.floor(math.log10(x)))}"
